@@ -155,6 +155,15 @@ pub fn palette(bk: BK, ctx: &mut Ctx) -> Vec<Op> {
     let sig = MSignature { prot: MProt { bytes: None, header: MHeader { kid: vec![7], ..Default::default() } }, unprot: MHeader::default(), sig: vec![1] };
     let sig2 = MSignature { prot: MProt::default(), unprot: MHeader { alg: Some(MLabel::Int(-7)), ..Default::default() }, sig: vec![] };
     let rcp = MRecipient { prot: MProt::default(), unprot: MHeader { kid: vec![1], ..Default::default() }, ct: Some(vec![2]), recipients: vec![] };
+    // parts obtained by decoding keep their received protected bytes: the adders must store them as they are
+    let sig3 = MSignature { prot: MProt { bytes: Some(vec![0xa1, 0x04, 0x58, 0x01, 0x07]), header: MHeader { kid: vec![7], ..Default::default() } }, unprot: MHeader::default(), sig: vec![3] };
+    let sig4 = MSignature { prot: MProt { bytes: Some(vec![0xa0]), header: MHeader::default() }, unprot: MHeader { kid: vec![4], ..Default::default() }, sig: vec![4] };
+    let rcp3 = MRecipient {
+        prot: MProt { bytes: Some(vec![0xbf, 0x01, 0x18, 0x01, 0xff]), header: MHeader { alg: Some(MLabel::Int(1)), ..Default::default() } },
+        unprot: MHeader::default(),
+        ct: None,
+        recipients: vec![MRecipient { prot: MProt { bytes: Some(vec![0xa0]), header: MHeader::default() }, unprot: MHeader::default(), ct: Some(vec![5]), recipients: vec![] }],
+    };
     let h1 = MHeader { alg: Some(MLabel::Int(1)), kid: vec![1, 2], ..Default::default() };
     let h2 = MHeader { iv: vec![9], rest: vec![(MLabel::Int(99), Item::int(1))], ..Default::default() };
     let msg_common = vec![Op::Protected(MHeader::default()), Op::Protected(h1.clone()), Op::Protected(h2.clone()), Op::Unprotected(MHeader::default()), Op::Unprotected(h1.clone()), Op::Unprotected(small_header(ctx))];
@@ -173,12 +182,17 @@ pub fn palette(bk: BK, ctx: &mut Ctx) -> Vec<Op> {
             Op::ContentFormat(60),
             Op::ContentType("a/b".into()),
             Op::ContentType(String::new()),
+            Op::ContentType("42".into()),
+            Op::ContentType("0".into()),
+            Op::ContentType("+60".into()),
             Op::Iv(b(&[1])),
             Op::Iv(vec![]),
             Op::PartialIv(b(&[2])),
             Op::PartialIv(vec![]),
             Op::AddCounterSignature(sig.clone()),
             Op::AddCounterSignature(sig2.clone()),
+            Op::AddCounterSignature(sig3.clone()),
+            Op::AddCounterSignature(sig4.clone()),
             Op::Value(0, Item::int(0)),
             Op::Value(1, Item::int(1)),
             Op::Value(2, Item::Null),
@@ -200,7 +214,7 @@ pub fn palette(bk: BK, ctx: &mut Ctx) -> Vec<Op> {
         }
         BK::Sign => {
             let mut v = msg_common;
-            v.extend([Op::Payload(vec![]), Op::Payload(b(&[1])), Op::AddSignature(sig.clone()), Op::AddSignature(sig2.clone())]);
+            v.extend([Op::Payload(vec![]), Op::Payload(b(&[1])), Op::AddSignature(sig.clone()), Op::AddSignature(sig2.clone()), Op::AddSignature(sig3.clone()), Op::AddSignature(sig4.clone())]);
             for (f, d) in [(false, None), (true, None), (false, Some(b(&[8, 8]))), (true, Some(b(&[8])))] {
                 v.push(Op::AddCreatedSignature { sig: sig.clone(), aad: b(&[0xaa]), ret: b(&[0xd1, f as u8]), fallible: f, detached: d });
             }
@@ -216,7 +230,7 @@ pub fn palette(bk: BK, ctx: &mut Ctx) -> Vec<Op> {
         }
         BK::Mac => {
             let mut v = msg_common;
-            v.extend([Op::Payload(vec![]), Op::Payload(b(&[1])), Op::Tag(vec![]), Op::Tag(b(&[3])), Op::AddRecipient(rcp.clone()), Op::AddRecipient(MRecipient::default())]);
+            v.extend([Op::Payload(vec![]), Op::Payload(b(&[1])), Op::Tag(vec![]), Op::Tag(b(&[3])), Op::AddRecipient(rcp.clone()), Op::AddRecipient(MRecipient::default()), Op::AddRecipient(rcp3.clone())]);
             v.extend([Op::CreateTag { aad: b(&[0xaa]), ret: b(&[0xd3]), fallible: false }, Op::CreateTag { aad: vec![], ret: b(&[0xd4]), fallible: true }]);
             v
         }
@@ -228,7 +242,7 @@ pub fn palette(bk: BK, ctx: &mut Ctx) -> Vec<Op> {
         }
         BK::Encrypt | BK::Recipient => {
             let mut v = msg_common;
-            v.extend([Op::Ciphertext(vec![]), Op::Ciphertext(b(&[1])), Op::AddRecipient(rcp.clone()), Op::AddRecipient(MRecipient::default())]);
+            v.extend([Op::Ciphertext(vec![]), Op::Ciphertext(b(&[1])), Op::AddRecipient(rcp.clone()), Op::AddRecipient(MRecipient::default()), Op::AddRecipient(rcp3.clone())]);
             for c in 0..5u8 {
                 for f in [false, true] {
                     if bk == BK::Recipient || c == 0 {
@@ -316,7 +330,9 @@ pub fn palette(bk: BK, ctx: &mut Ctx) -> Vec<Op> {
             let p2 = MParty { identity: None, nonce: Some(MNonce::Bytes(vec![2])), other: Some(vec![]) };
             let s1 = MSuppPub { key_data_length: 256, prot: MProt { bytes: None, header: h1.clone() }, other: None };
             let s2 = MSuppPub { key_data_length: 1, prot: MProt::default(), other: Some(vec![1]) };
-            vec![Op::Algorithm(-25), Op::Algorithm(1), Op::PartyU(p1.clone()), Op::PartyU(p2.clone()), Op::PartyV(p1), Op::PartyV(p2), Op::SuppPubInfo(s1), Op::SuppPubInfo(s2), Op::AddSuppPrivInfo(vec![]), Op::AddSuppPrivInfo(b(&[7]))]
+            let s3 = MSuppPub { key_data_length: 128, prot: MProt { bytes: Some(vec![0xa1, 0x01, 0x18, 0x01]), header: MHeader { alg: Some(MLabel::Int(1)), ..Default::default() } }, other: None };
+            let s4 = MSuppPub { key_data_length: 64, prot: MProt { bytes: Some(vec![0xa0]), header: MHeader::default() }, other: Some(vec![]) };
+            vec![Op::Algorithm(-25), Op::Algorithm(1), Op::PartyU(p1.clone()), Op::PartyU(p2.clone()), Op::PartyV(p1), Op::PartyV(p2), Op::SuppPubInfo(s1), Op::SuppPubInfo(s2), Op::SuppPubInfo(s3), Op::SuppPubInfo(s4), Op::AddSuppPrivInfo(vec![]), Op::AddSuppPrivInfo(b(&[7]))]
         }
     }
 }
@@ -333,6 +349,12 @@ fn random_op(bk: BK, ctx: &mut Ctx) -> Op {
             Op::Algorithm(_) => Op::Algorithm(*ctx.rng.pick(&registry::values(Reg::Algorithm))),
             Op::AddCritical(_) => Op::AddCritical(*ctx.rng.pick(&registry::values(Reg::HeaderParameter))),
             Op::ContentFormat(_) => Op::ContentFormat(*ctx.rng.pick(&registry::values(Reg::CoapContentFormat))),
+            Op::ContentType(_) => Op::ContentType(if ctx.rng.coin() { gen::pal_text(&mut ctx.rng) } else { format!("{}{}", ["", "+", "0", "00"][ctx.rng.below(4)], ctx.rng.pick(&registry::values(Reg::CoapContentFormat))) }),
+            Op::Issuer(_) => Op::Issuer(gen::pal_text(&mut ctx.rng)),
+            Op::Subject(_) => Op::Subject(gen::pal_text(&mut ctx.rng)),
+            Op::Audience(_) => Op::Audience(gen::pal_text(&mut ctx.rng)),
+            Op::TextValue(_, v) => Op::TextValue(gen::pal_text(&mut ctx.rng), v),
+            Op::TextClaim(_, v) => Op::TextClaim(gen::pal_text(&mut ctx.rng), v),
             Op::Value(_, v) => Op::Value(if ctx.rng.coin() { ctx.rng.range(-3, 12) } else { gen::pal_i64(&mut ctx.rng) }, v),
             Op::Param(_, v) => Op::Param(if ctx.rng.coin() { ctx.rng.range(-6, 9) } else { gen::pal_i64(&mut ctx.rng) }, v),
             Op::Claim(_, v) => Op::Claim(*ctx.rng.pick(&registry::values(Reg::CwtClaimName)), v),
@@ -856,8 +878,43 @@ pub fn run_seq(ctx: &mut Ctx, bk: BK, ops: &[Op]) {
             MVal::Recipient
         ),
         BK::Key(ctor) => {
-            let (x, y, d, k) = (vec![0x10u8, 0x11], vec![0x20u8], vec![0x30u8, 0x31, 0x32], vec![0x40u8]);
-            let curve_i = [1i64, 2, 3, 8][(ctx.idx % 4) as usize];
+            let curve_i = [1i64, 2, 3, 8, 4, 5, 6, 7][(ctx.idx % 4) as usize + if ctx.rng.chance(1, 4) { 4 } else { 0 }];
+            // coordinates / key material of lengths around the curve's field size, with leading zero
+            // octets, all-zero and high-bit-set variants: the constructors store what they are given
+            let field = match curve_i {
+                1 | 8 => 32usize,
+                2 => 48,
+                3 => 66,
+                4 | 6 => 32,
+                _ => 57,
+            };
+            let mut coord = |ctx: &mut Ctx, short: Vec<u8>| -> Vec<u8> {
+                if ctx.rng.chance(1, 3) {
+                    return short;
+                }
+                let n = if ctx.rng.coin() { (field as i64 + ctx.rng.range(-2, 3)) as usize } else { *ctx.rng.pick(&[0usize, 1, 2, 3, 16, 31, 32, 33, 34, 47, 48, 49, 64, 65, 66, 67, 68, 132]) };
+                let mut v = ctx.rng.bytes(n);
+                match ctx.rng.below(5) {
+                    0 | 1 => {
+                        let z = (1 + ctx.rng.below(3)).min(v.len());
+                        for b in v.iter_mut().take(z) {
+                            *b = 0;
+                        }
+                    }
+                    2 => v.iter_mut().for_each(|b| *b = 0),
+                    3 => {
+                        if let Some(b) = v.first_mut() {
+                            *b |= 0x80;
+                        }
+                    }
+                    _ => {}
+                }
+                v
+            };
+            let x = coord(ctx, vec![0x10u8, 0x11]);
+            let y = coord(ctx, vec![0x20u8]);
+            let d = coord(ctx, vec![0x30u8, 0x31, 0x32]);
+            let k = coord(ctx, vec![0x40u8]);
             let curve = match iana::EllipticCurve::from_i64(curve_i) {
                 Some(c) => c,
                 None => return,
